@@ -392,7 +392,10 @@ func space(name, aspect string, cases []astgen.Case, expanded bool, nslots int) 
 }
 
 func spaces(tier string) []kit.Space {
-	exprs := astgen.Expressions(tier)
+	exprs := astgen.ExpressionShapes(tier)
+	if tier == "thorough" {
+		exprs = astgen.Expressions(tier)
+	}
 	ecs := make([]astgen.Case, len(exprs))
 	for i, e := range exprs {
 		ecs[i] = astgen.ExprCase(e)
@@ -416,7 +419,7 @@ func main() {
 	kit.Main(&kit.Check{
 		ID:    "C28",
 		Level: "model_checking",
-		Rule: "every tree of C27's spaces (expression grammar, Go-form and template-form statements, /repo's template corpus) plus 13 multi-file templates expanded through extends/import/render (ExpandedTransformer); for EVERY node of each tree, descendants first: Clone* equality, mutation independence, and the exact set of children Walk and Inspect hand to the visitor; then a whole-tree walk. " +
+		Rule: "every tree of C27's spaces (expression grammar — quick: without the operator-pair and operator-chain products that only vary precedence —, Go-form and template-form statements, /repo's template corpus) plus 13 multi-file templates expanded through extends/import/render (ExpandedTransformer); for EVERY node of each tree, descendants first: Clone* equality, mutation independence, and the exact set of children Walk and Inspect hand to the visitor; then a whole-tree walk. " +
 			"Non-trivial = the tree has more than one node; index = (source, aspect, finding slot)",
 		Assumptions: []string{
 			"clone equality = equal deterministic reflection dumps including *ast.Position values and parenthesis counts; nil and empty slices are equal",
